@@ -624,3 +624,39 @@ Proof.
   assert (Hrd' := Hrd). vm_compute in Hrd'. inversion Hrd'. subst r' k' raws.
   split; [reflexivity|]. split; [reflexivity|]. split; vm_compute; reflexivity.
 Qed.
+
+(* the same instance: the delivered stream (walk order: R/d/g before R/d/e/f although it was created after it), every event
+   justified, the replayed tree is the tree after the burst *)
+Definition ba_events : list nevent :=
+  [mk DirCreated ba_d []; mk DirModified pR []; mk DirCreated ba_e []; mk DirModified ba_d [];
+   mk FileCreated ba_g []; mk DirModified ba_d []; mk FileCreated ba_f []; mk DirModified ba_e []].
+
+Lemma arrival_example_stream :
+  exists r0 k0, construct (cfgx true true) kinit (w_fs w0) = Some (r0, k0) /\
+    let KB := fst (burst_end k0 w0 (Mkdir ba_d :: ba_rest)) in let wn := snd (burst_end k0 w0 (Mkdir ba_d :: ba_rest)) in
+    exists r' k' raws, read_batch (cfgx true true) (w_fs wn) (r0, drainq KB, []) (k_queue KB) = Done (r', k', raws) /\
+      ReplayProofs.delivered (cfgx true true) false wn raws = ba_events /\
+      forallb (justified true pR (burst_recs w0 (Mkdir ba_d :: ba_rest))) ba_events = true /\
+      length (burst_recs w0 (Mkdir ba_d :: ba_rest)) = 4%nat /\
+      (forall x, alookup beqb x (replay true pR (tree_of true pR w0) ba_events) = alookup beqb x (tree_of true pR wn)).
+Proof.
+  destruct (construct_cover (cfgx true true) eq_refl w0 w0_wf eq_refl) as (r & k & Hc & I & Cv & Hq & _ & Hp).
+  assert (S : RSync (cfgx true true) w0 k r).
+  { constructor; try assumption; [exact w0_wf|]. eexists. split; [left; reflexivity | split; reflexivity]. }
+  exists r, k. split; [exact Hc|]. cbv zeta.
+  assert (GR : gpath pR) by (split; [discriminate | reflexivity]).
+  assert (ND : npath ba_d) by (apply npath_sub; [exact GR | reflexivity]).
+  assert (SD : scope (cfgx true true) ba_d) by (right; vm_compute; reflexivity).
+  assert (Hm : N.land IN_CREATE (c_mask (cfgx true true)) <> 0%N) by (vm_compute; discriminate).
+  destruct (arrival_replay (cfgx true true) false eq_refl eq_refl w0 k r ba_d ba_rest _ S ND eq_refl SD Hm ba_rest_below _ eq_refl
+              (TInv_init true pR w0 w0_wf)) as (r' & k' & raws & Hrd & _ & T).
+  destruct (arrival_sound (cfgx true true) false eq_refl eq_refl w0 k r ba_d ba_rest S ND eq_refl SD Hm ba_rest_below _ eq_refl)
+    as (r2 & k2 & raws2 & Hrd2 & _ & J).
+  cbv zeta in Hrd, Hrd2, T, J. rewrite Hrd in Hrd2. inversion Hrd2; subst r2 k2 raws2.
+  exists r', k', raws. split; [exact Hrd|].
+  assert (Hc' := Hc). vm_compute in Hc'. inversion Hc'; subst r k. clear Hc'.
+  assert (Hrd' := Hrd). vm_compute in Hrd'. inversion Hrd'. subst r' k' raws.
+  match goal with |- ?A = ba_events /\ _ => assert (Ed : A = ba_events) by (vm_compute; reflexivity) end.
+  split; [exact Ed|]. split; [rewrite <- Ed; exact J|]. split; [vm_compute; reflexivity|].
+  rewrite <- Ed. now apply TInv_tree_eq.
+Qed.
